@@ -60,6 +60,9 @@ T = [
   'd2oracle.Delete of an attribute that a connection has from the map of its chain (`a -> b -> c: {style.stroke: red}`) does nothing: deleteEdgeField skips chain references'),
  ('C38-delete-attribute-of-quoted-name', 'C38', F('x-quoted') + ATTR, ['delattr-not-reset'],
   'd2oracle.Delete("\\"q.r\\".style.fill") on an object whose name needs quotes leaves the attribute set'),
+ ('C38-delete-unknown-connection-field-deletes-the-connection', 'C38', r'"op": \{"attr": "language", "board": (?:null|\[[^\]]*\]), "key": "(?:[^"\\]|\\.)*\]\.language"',
+  ['delattr-element-count', 'delattr-changed-other-attr', 'delattr-changed-other-edge', 'delattr-not-reset'],
+  'd2oracle.Delete("(a -> b)[0].language") — a field of a connection that is not a reserved keyword (the harness derives `language` from a block-string label) — skips deleteReserved and falls through to the connection delete: the whole connection is removed (witness: `a -> b: E1`)'),
  ('C38-duplicate-style-key-survives-delete', 'C38', r'(style\.)?text-transform: [A-Za-z]+\\n\s*(style\.)?text-transform:', ['delattr-not-reset'],
   'after Set(style.text-transform=Lowercase) and Set(…=uppercase) the map holds the key twice; Delete removes one occurrence and the attribute stays set'),
  ('C38-hoist-does-not-rewrite-underscore-references', 'C38', ANY('sub-underscore', 'x-underscore', 'sube-edge-in-map', 't-underscore') + K('delete'),
@@ -83,9 +86,9 @@ T = [
   'd2oracle.Move / Rename does not rewrite indexed connection references `(x <- z.q.c.d)[1].style.opacity: 0.5` whose endpoint lies in the moved subtree: the stale key re-creates the old path as new objects and a new connection'),
  ('C39-move-does-not-rewrite-underscore-references', 'C39', ANY('x-underscore', 'sub-underscore', 'anc-underscore', 'dest-underscore', 't-underscore'), ['move-new-object', 'move-lost-edge', 'move-edge-detached', 'move-changed-edge-attrs', 'move-lost-object', 'move-descendant-misplaced', 'labels-duplicated'],
   'd2oracle.Move of an object that is referenced through `_` parent references inside another container leaves those references pointing at the old path, which re-creates it'),
- ('C39-rename-connection-with-indexed-references', 'C39', F('x-edge-multiref') + r'.*"key": "(?:[^"\\]|\\.)*\((?:[^"\\]|\\.)*", "kind": "rename"',
+ ('C39-rename-connection-with-indexed-references', 'C39', ANY('x-edge-multiref', 't-edge-multiref') + r'.*"key": "(?:[^"\\]|\\.)*\((?:[^"\\]|\\.)*", "kind": "rename"',
   ['rename-edge-detached', 'rename-edge-changed-other-edge', 'rename-edge-lost-edge', 'rename-edge-new-edge'],
-  'renaming a connection (changing its arrows) that also has indexed references `(a <-> d)[1].style.stroke-width: 4` leaves those references on the old arrows: attributes are lost / a connection is re-created'),
+  'renaming a connection (changing its arrows) while indexed references exist: its own `(a <-> d)[1].style.stroke-width: 4` stays on the old arrows, and when it joins an existing parallel group it takes index 0 there, so that group\'s indexed references (`(b -> q)[0].source-arrowhead: 1`) now apply to it instead of the connection they were written for (witness: `b <-> q: E3; b -> q: E4; (b -> q)[0].source-arrowhead: 1`, Rename("(b <-> q)[0]", "(b -> q)[0]"))'),
  ('C39-board-scoped-move-leaves-the-board', 'C39', F('board-nested') + K('move'), ['move-lost-moved-object', 'move-lost-object', 'move-new-object'],
   'd2oracle.Move addressed to a nested board that moves an object to the board root writes the object into the FILE root instead of the board\'s own map: it vanishes from the board'),
 
@@ -143,6 +146,9 @@ T += [
  ('C41-board-delete-container-renames-in-root-graph', 'C41', F('board-nested', 'child-name-taken-in-parent', 'x-children') + K('delete'),
   ['scoped-other-board-changed'],
   'Delete of a container addressed to a nested board first renames clashing children with move(g, nil, …) ("TODO boardPath" in renameConflictsToParent): the renames are applied to the root board'),
+ ('C41-refused-board-move-has-already-renamed-in-root-graph', 'C41', F('board-nested', 'child-name-taken-in-parent', 'cross-scope', 'x-children') + K('move'),
+  ['refused-scoped-other-board-changed', 'scoped-other-board-changed'],
+  'Move(includeDescendants=false) addressed to a nested board runs renameConflictsToParent (move(g, nil, …) on the ROOT graph) before its scope check: when it then refuses with OutsideScopeError the caller\'s AST already has the base board\'s children renamed (witness: `y.y.e` becomes `y.y.e 2`)'),
  ('C41-refused-reconnect-leaves-uncompilable-graph', 'C41', F('board-nested') + K('reconnect'), ['refused-left-graph-does-not-compile-reconnect'],
   'ReconnectEdge addressed to a nested board that fails with "failed to recompile" has already rewritten the caller\'s AST: the graph the caller still holds no longer compiles'),
  ('C41-refused-set-leaves-uncompilable-graph', 'C41', F('board-nested') + K('set'), ['refused-left-graph-does-not-compile-set'],
